@@ -16,6 +16,10 @@ func OraclesFor(prop string) []Oracle {
 		return []Oracle{&C05{}}
 	case "C06":
 		return []Oracle{&C06{}}
+	case "C07":
+		return []Oracle{t, &C07{}}
+	case "C08":
+		return []Oracle{t, &C08{}}
 	case "C09":
 		return []Oracle{t, &C09{}}
 	case "C10":
